@@ -337,6 +337,28 @@ def kwargs_rule(prog, run):
                     run.ob("R-kwargs", m.qual, f"keyword {key} is taken from **{kwname} once, before any per-dataset loop", loop is None,
                            f"`{astq.src(c, 50)}`" + ("" if loop is None else " runs inside a loop: the first iteration consumes the keyword, every later dataset silently gets the default"),
                            witness=f"pop in loop {key}", file=f, node=c)
+            # a user-supplied option must reach scipy as given: `value or default` / `value if value else default` replaces every FALSY
+            # value (zero_phase=False, axis=0, n=0) by the default
+            def from_kwargs(e):
+                x = e
+                if isinstance(e, ast.Name):
+                    try:
+                        x = astq.expr_at(m, e, e)
+                    except Exception:
+                        x = e
+                return any(isinstance(z, ast.Call) and isinstance(z.func, ast.Attribute) and z.func.attr in ("pop", "get") and isinstance(z.func.value, ast.Name) and z.func.value.id == kwname
+                           for z in ast.walk(x)) or any(isinstance(z, ast.Subscript) and isinstance(z.value, ast.Name) and z.value.id == kwname for z in ast.walk(x))
+            for c in ast.walk(m.node):
+                lossy = None
+                if isinstance(c, ast.BoolOp) and isinstance(c.op, ast.Or) and len(c.values) >= 2 and from_kwargs(c.values[0]):
+                    lossy = c
+                elif isinstance(c, ast.IfExp) and from_kwargs(c.test) and not isinstance(c.test, ast.Compare):
+                    lossy = c
+                if lossy is not None:
+                    n += 1
+                    run.ob("R-kwargs", m.qual, "user options are not replaced by a truth-test default", False,
+                           f"`{astq.src(lossy, 60)}`: a falsy value given by the caller (False, 0) is silently replaced by the default",
+                           witness=astq.src(lossy, 60), file=f, node=lossy)
             for c in ast.walk(m.node):
                 if isinstance(c, ast.Call) and any(k.arg is None and isinstance(k.value, ast.Name) and k.value.id == kwname for k in c.keywords):
                     for k in c.keywords:
@@ -531,6 +553,12 @@ def check(prog, run):
     kwargs_rule(prog, run)
     axis_rule(prog, run)
     no_inplace(prog, run)
+    # "with the reference/roving split re-applied": the split keeps the listed reference order / ascending roving order, is given the
+    # reference lists as stored, and is applied to the dataset list that is current when the operation returns (rules shared with C03/C04/C08)
+    from .. import seqsig
+    run.rule("R-split", "the reference/roving split re-applied after every operation: references in listed order, roving channels ascending, on the dataset list the "
+             "operation leaves in `datasets`, with the reference lists as given", 8)
+    seqsig.order_obligations(prog, run, "R-split", which=("pre", "reflists", "split_current"))
 
 
 B, SI, MU = "setup.base", "setup.single", "setup.multi"
